@@ -87,7 +87,8 @@ def _install():
         _EVENTS.append([M.STAGE[-1], "val", j, repr(v)])
         return v
 
-    builtins.rc_log, builtins.rc_val = rc_log, rc_val
+    import contextlib
+    builtins.rc_log, builtins.rc_val, builtins.rc_cm = rc_log, rc_val, contextlib.nullcontext
 
 
 def run_history(program, history):
@@ -226,6 +227,7 @@ def snippet(d):
             "events = []\n"
             "builtins.rc_log = lambda i: (events.append(('log', i)), 10 * i)[1]\n"
             "builtins.rc_val = lambda j, v: (events.append(('val', j, repr(v))), v)[1]\n"
+            "import contextlib; builtins.rc_cm = contextlib.nullcontext\n"
             "d = tempfile.mkdtemp(); sys.path.insert(0, d); os.environ['HY_MESSAGE_WHEN_COMPILING'] = '1'\n"
             f"p = os.path.join(d, 'rc16m.hy'); open(p, 'w').write({build.text!r})\n"
             f"for op in {c['history']!r}:\n"
